@@ -6,7 +6,8 @@
               2 bulk <> per-sample, 3 label outside the announced range, 4 second pass differs,
               5 wrapped dataset's labels changed, 6 encoding not a distribution / wrong argmax,
               7 bulk of a re-encoding wrapper is not the integer label,
-              8 a thresholded pseudo label was not decided by "softmax(row).max() > threshold" *)
+              8 a thresholded pseudo label was not decided by "softmax(row).max() > threshold",
+              9 the wrapper's own labels changed after LATER constructions on the same objects *)
 From Coq Require Import ZArith List Bool QArith.
 Import ListNotations.
 From KD Require Import C16.Model C16.Spec.
@@ -24,11 +25,17 @@ Record lobs := { o_items : list Z;            (* [w.getitem_class(i) for i in ra
                  o_items2 : list Z;           (* the same, second pass *)
                  o_bulk : option (list Z);    (* w.getall_class(); None = NotImplementedError *)
                  o_shape : Z;                 (* w.getshape_class()[0] *)
-                 o_after : list Z             (* wrapped dataset's labels after all accessor calls *) }.
+                 o_after : list Z;            (* wrapped dataset's labels after all accessor calls *)
+                 o_hist : list (list Z);      (* wrapped dataset's labels after every step of the construction history
+                                                 (siblings built before / after the wrapper, beside it / stacked),
+                                                 after the constructor and after every accessor pass *)
+                 o_later : option (list Z * option (list Z))
+                                              (* per-sample list and bulk answer re-read after the later constructions *) }.
 
 Inductive case_t :=
 | CaseLabel (w : wspec) (C : Z) (labels : list Z) (o : lobs)
-| CaseEnc (e : espec) (C : Z) (labels : list Z) (items : list enc) (bulk : list Z) (after : list Z).
+| CaseEnc (e : espec) (C : Z) (labels : list Z) (items : list enc) (bulk : list Z) (after : list Z)
+          (hist : list (list Z)) (later : option (list enc)).
 
 (* ---------- strong contracts of the recorded draws (validated against numpy / torch) ---------- *)
 Definition is_perm_nat (n : nat) (l : list nat) : bool :=
@@ -73,6 +80,15 @@ Definition check_label (w : wspec) (C : Z) (labels : list Z) (o : lobs) : nat :=
   if contractb w C labels && negb (forallb (label_okb (allows_unlabeled w) (o_shape o)) items) then 3%nat else
   if negb (zlist_eqb items (o_items2 o)) then 4%nat else
   if negb (zlist_eqb (o_after o) labels) then 5%nat else
+  if negb (forallb (fun s => zlist_eqb s labels) (o_hist o)) then 5%nat else
+  if negb (match o_later o with
+           | None => true
+           | Some (i3, b3) => zlist_eqb i3 items &&
+                              match b3, o_bulk o with
+                              | Some a, Some b => zlist_eqb a b
+                              | None, None => true
+                              | _, _ => false end
+           end) then 9%nat else
   if negb (draws_okb w C labels) then 1%nat else
   if negb (zlist_eqb (w_items w C labels) items) then 1%nat else
   if negb (match w_getall w C labels, o_bulk o with
@@ -123,15 +139,18 @@ Fixpoint forallb2 {A B} (f : A -> B -> bool) (a : list A) (b : list B) : bool :=
   | _, _ => false
   end.
 
-Definition check_enc (e : espec) (C : Z) (labels : list Z) (items : list enc) (bulk after : list Z) : nat :=
+Definition check_enc (e : espec) (C : Z) (labels : list Z) (items : list enc) (bulk after : list Z)
+           (hist : list (list Z)) (later : option (list enc)) : nat :=
   if negb (zlist_eqb bulk labels) then 7%nat else
   if negb (forallb2 (fun y it => enc_okb e C y it) bulk items) then 6%nat else
   if negb (zlist_eqb after labels) then 5%nat else
+  if negb (forallb (fun s => zlist_eqb s labels) hist) then 5%nat else
+  if negb (match later with None => true | Some l => forallb2 enc_close items l end) then 9%nat else
   if negb (forallb2 enc_close (map (e_getitem e C labels) (seq 0 (length labels))) items) then 1%nat else
   if negb (zlist_eqb (e_getall e labels) bulk) then 1%nat else 0%nat.
 
 Definition check (t : case_t) : nat :=
   match t with
   | CaseLabel w C labels o => check_label w C labels o
-  | CaseEnc e C labels items bulk after => check_enc e C labels items bulk after
+  | CaseEnc e C labels items bulk after hist later => check_enc e C labels items bulk after hist later
   end.
